@@ -39,9 +39,20 @@ def shards(tier):
     return 14
 
 
-def run_history(root, seed, order, hashseed, guard, workdir, tag):
+def run_history(root, seed, order, hashseed, guard, workdir, tag, busy_cwd=False):
     cwd = os.path.join(workdir, f"cwd_{tag}")
     os.makedirs(cwd, exist_ok=True)
+    if busy_cwd:
+        # a working directory that is not empty: files named exactly like the payload literals and payload names of the
+        # descriptions (all inputs are given by absolute path, so nothing in the working directory is an input)
+        import glob
+        for f in glob.glob(os.path.join(root, "decoy_names_*.json")):
+            for name in json.load(open(f)):
+                try:
+                    with open(os.path.join(cwd, name), "wb") as fh:
+                        fh.write(b"DECOY FILE IN THE WORKING DIRECTORY\n")
+                except OSError:
+                    pass
     of, rf = os.path.join(cwd, "order.json"), os.path.join(cwd, "result.json")
     with open(of, "w") as fh:
         json.dump(order, fh)
@@ -92,7 +103,9 @@ def run_shard(rec, shard, nshards):
                 order += [f"{kd}-A", f"{kd}-B", f"{kd}-A"]
         hs = HASHSEEDS[h % len(HASHSEEDS)]
         guard = h % 2 == 0
-        res, err = run_history(root, rec.seed, order, hs, guard, wd, f"h{h}")
+        busy = (h // 2) % 2 == 1
+        res, err = run_history(root, rec.seed, order, hs, guard, wd, f"h{h}", busy_cwd=busy)
+        rec.count("working-directory:" + ("holds-decoy-files" if busy else "empty"))
         if res is None:
             rec.inconclusive.append(f"history {h} failed to run: {err}")
             continue
